@@ -23,9 +23,9 @@ type DNSZone struct {
 	// is authenticated"), a CNAME query with the record alone and AD = ADCNAME.
 	CNAME   string
 	ADCNAME bool
-	A        []string
-	MX       []net.MX
-	TLSA     []dns.TLSA // Hdr is filled in by the server
+	A       []string
+	MX      []net.MX
+	TLSA    []dns.TLSA // Hdr is filled in by the server
 }
 
 type DNSQuery struct {
